@@ -541,19 +541,8 @@ func runHistory(alpha []vbStep, nrep int, idx []int, quiesce bool) (applicable b
 	return true, trace, nil
 }
 
-func TestVerifBounded(t *testing.T) {
-	depth, _ := strconv.Atoi(os.Getenv("VERIF_BOUND_DEPTH"))
-	if depth <= 0 {
-		depth = 3
-	}
-	nrep, _ := strconv.Atoi(os.Getenv("VERIF_BOUND_REPLICAS"))
-	if nrep < 2 {
-		nrep = 2
-	}
-	vbQuiet(log.Logger)
+func vbExplore(nrep, depth int) (histories, steps, failures int, sample string, alphabet int) {
 	alpha := vbAlphabet(nrep)
-	histories, steps, failures := 0, 0, 0
-	var sample string
 	// shortest histories first, so that the first failure reported is a shortest one
 	for length := 1; length <= depth && failures == 0; length++ {
 		var rec func(prefix []int)
@@ -583,7 +572,27 @@ func TestVerifBounded(t *testing.T) {
 		}
 		rec(nil)
 	}
-	fmt.Printf("VERIF-BOUNDED-SUMMARY harness=doctree histories=%d steps=%d failures=%d bound=[every history of at most %d steps from an alphabet of %d steps over %d replicas, fixed start state] sample=[%s]\n", histories, steps, failures, depth, len(alpha), nrep, sample)
+	return histories, steps, failures, sample, len(alpha)
+}
+
+func TestVerifBounded(t *testing.T) {
+	depth, _ := strconv.Atoi(os.Getenv("VERIF_BOUND_DEPTH"))
+	if depth <= 0 {
+		depth = 3
+	}
+	nrep, _ := strconv.Atoi(os.Getenv("VERIF_BOUND_REPLICAS"))
+	if nrep < 2 {
+		nrep = 2
+	}
+	vbQuiet(log.Logger)
+	histories, steps, failures, sample, alphabet := vbExplore(nrep, depth)
+	bound := fmt.Sprintf("every history of at most %d steps from an alphabet of %d steps over %d replicas, fixed start state", depth, alphabet, nrep)
+	if depth >= 4 && failures == 0 { // thorough tier: three replicas as well, one step shorter
+		h2, s2, f2, _, a2 := vbExplore(nrep+1, depth-1)
+		histories, steps, failures = histories+h2, steps+s2, failures+f2
+		bound += fmt.Sprintf("; and every history of at most %d steps from an alphabet of %d steps over %d replicas", depth-1, a2, nrep+1)
+	}
+	fmt.Printf("VERIF-BOUNDED-SUMMARY harness=doctree histories=%d steps=%d failures=%d bound=[%s] sample=[%s]\n", histories, steps, failures, bound, sample)
 	if failures > 0 {
 		t.Fatalf("%d failing histories", failures)
 	}
